@@ -21,6 +21,7 @@ import (
 	"time"
 
 	"reservoir/config"
+	"reservoir/proxy"
 	"reservoir/utils/bytesize"
 	"verifharness/e2elib"
 	"verifharness/emit"
@@ -191,6 +192,86 @@ func abortedTransfer(env *e2elib.Env, tlsOn bool, backend, transport string, fai
 	}
 }
 
+// replaceAtHandover: two clients share one fetch of an uncached resource (version 1). When the shared fetch has returned
+// and before either of them has picked up its own handle (yield point fetch.afterDo), the resource changes and a
+// non-coalesced request stores version 2 over the entry. Whatever version a client is then given, its validators,
+// content type, length and body belong to ONE version.
+func replaceAtHandover(env *e2elib.Env, tlsOn bool, backend, transport string, fail func(failure)) {
+	var ver atomic.Int64
+	ver.Store(1)
+	gate := make(chan struct{})
+	var gated atomic.Bool
+	gated.Store(true)
+	env.Origin.SetHandler(func(req e2elib.OriginRequest, n int) e2elib.Answer {
+		v := int(ver.Load())
+		if gated.Load() {
+			<-gate // the first answer waits until the second client has joined the flight
+		}
+		return e2elib.NewAnswer(200, mkBody(96, v, 600+100*v), "Cache-Control: max-age=60", fmt.Sprintf("ETag: \"r96v%d\"", v), fmt.Sprintf("Content-Type: application/x-r96v%d", v))
+	})
+	do := func(hs []string) (*e2elib.Response, error) {
+		if tlsOn {
+			c, _, err := env.DialTunnel(env.Origin.Addr, "127.0.0.1", 8*time.Second)
+			if err != nil {
+				return nil, err
+			}
+			defer c.Close()
+			c.Send(env.TunnelRequest("GET", "/handover", hs, nil), 5*time.Second)
+			return c.Read("GET", 12*time.Second)
+		}
+		return env.DoPlain(env.PlainRequest("GET", "/handover", hs, nil), "GET", 12*time.Second)
+	}
+	var parked atomic.Int64
+	release := make(chan struct{})
+	proxy.VerifSetYield(func(point string) {
+		if point != "fetch.afterDo" || parked.Add(1) > 2 {
+			return // the replacing request (and anything later) passes
+		}
+		select {
+		case <-release:
+		case <-time.After(8 * time.Second):
+		}
+	})
+	defer proxy.VerifSetYield(nil)
+	type res struct {
+		r   *e2elib.Response
+		err error
+	}
+	out := make(chan res, 2)
+	go func() { r, err := do(nil); out <- res{r, err} }()
+	time.Sleep(60 * time.Millisecond)
+	go func() { r, err := do(nil); out <- res{r, err} }()
+	time.Sleep(80 * time.Millisecond)
+	gated.Store(false)
+	close(gate)
+	for dl := time.Now().Add(4 * time.Second); parked.Load() < 2 && time.Now().Before(dl); {
+		time.Sleep(2 * time.Millisecond)
+	}
+	ver.Store(2)
+	do([]string{"Range: bytes=0-9"}) // never coalesced; the origin ignores Range: version 2 is stored over version 1
+	close(release)
+	for i := 0; i < 2; i++ {
+		x := <-out
+		if x.err != nil || x.r.Status != 200 {
+			continue
+		}
+		r := x.r
+		et := r.Header.Get("ETag")
+		var bv, bl int
+		if n, _ := fmt.Sscanf(string(r.Body), "96:%d:%d;", &bv, &bl); n != 2 {
+			fail(failure{"mixed-versions", backend, transport, "a 200 answer whose body is no complete version of the resource", map[string]any{"etag": et, "body_bytes": len(r.Body), "body_error": r.BodyErr}})
+			return
+		}
+		wantET, wantCT := fmt.Sprintf("\"r96v%d\"", bv), fmt.Sprintf("application/x-r96v%d", bv)
+		if et != wantET || r.Header.Get("Content-Type") != wantCT || r.BodyErr != "" || len(r.Body) != bl ||
+			(r.Header.Get("Content-Length") != "" && r.Header.Get("Content-Length") != fmt.Sprint(bl)) {
+			fail(failure{"mixed-versions", backend, transport, fmt.Sprintf("forced history: the entry was replaced between the shared fetch's return and a participant's own lookup; the participant got the body of version %d (%d bytes) with ETag %s, Content-Type %s, Content-Length %s", bv, len(r.Body), et, r.Header.Get("Content-Type"), r.Header.Get("Content-Length")),
+				map[string]any{"participants_parked_at_handover": parked.Load()}})
+			return
+		}
+	}
+}
+
 func main() {
 	flag.Parse()
 	e2elib.Quiet()
@@ -255,6 +336,7 @@ func main() {
 			lateStore(env, tlsOn, backend, transport, fail)
 			reval304Entity(env, tlsOn, backend, transport, fail)
 			abortedTransfer(env, tlsOn, backend, transport, fail)
+			replaceAtHandover(env, tlsOn, backend, transport, fail)
 			env.Origin.SetHandler(mainHandler)
 			stop := time.Now().Add(dur)
 			var wg sync.WaitGroup
